@@ -220,12 +220,16 @@ func propRegistry() map[string]PropSpec {
 			{Pkg: "cache", Fn: "Harness_C10_hitforpass_set_fault", Init: initCache, Reach: []string{"C10.hfp.end"}, EngineOnly: true},
 			{Pkg: "cache", Fn: "Harness_C10_purge_delete_fault", Init: initCache, Reach: []string{"C10.purge.end"}},
 		},
-		Explanation: "Every store answer is a solver variable: Get returns not-found, an error, data with an error, or an arbitrary byte string of up to 60 bytes (uninterpreted content, symbolic length); Set/Delete fail or succeed arbitrarily. The real (*httpCache).Get/get/initFromStore/FromBytes/Cacheable/HitForPass/saveToStore and (*dispatcher).RemoveHTTPCache are executed symbolically and the post-state must be a miss or a valid unexpired hit / hit-for-pass marker; a request that would park behind a fetch nobody performs shows up as a blocked path (no-deadlock).",
+		BMC: []BMCSpec{
+			{Name: "store2", Pkg: "cache", Fn: "Harness_BMC_entry_store2", Init: initCache, Only: []string{"every-thread-completes", "no-panic", "C01.waiter"}},
+			{Name: "store3", Pkg: "cache", Fn: "Harness_BMC_entry_store3", Init: initCache, Tier: "thorough", TimeoutSec: 3600, Only: []string{"every-thread-completes", "no-panic", "C01.waiter"}},
+		},
+		Explanation: "Every store answer is a solver variable: Get returns not-found, an error, data with an error, or an arbitrary byte string of up to 60 bytes (uninterpreted content, symbolic length); Set/Delete fail or succeed arbitrarily. The real (*httpCache).Get/get/initFromStore/FromBytes/Cacheable/HitForPass/saveToStore and (*dispatcher).RemoveHTTPCache are executed symbolically and the post-state must be a miss or a valid unexpired hit / hit-for-pass marker; a request that would park behind a fetch nobody performs shows up as a blocked path (no-deadlock). Waiters under store faults: the store-backed BMC system (two concurrent requests quick, three thorough, symbolic scheduler/clock/outcomes) has a store whose Set fails or succeeds per call as the solver chooses; every request must still complete.",
 		Assumptions: []string{
 			"records <= 60 bytes (a minimal hit record is 56 bytes, a hit-for-pass record 24)",
 			"a store call that never returns is outside the claim (pike has no timeout of its own around the store); timeouts are modelled as calls that return an error",
 			"encoding/json and regexp.Compile on record contents are free-outcome stubs (see C09)",
-			"free non-decreasing 64-bit clock; sequential single request (waiters under store faults are covered by the BMC system of C02 when a store is configured)",
+			"free non-decreasing 64-bit clock; the fault harnesses are sequential single requests; concurrent waiters are covered by the store-backed BMC system (Set faults only there: its Get returns a fixed expired record, Delete is not called)",
 		},
 		Encoded: []string{"cache.(*httpCache).Get", "cache.(*httpCache).get", "cache.(*httpCache).initFromStore", "cache.(*httpCache).FromBytes", "cache.(*httpCache).saveToStore", "cache.(*httpCache).Cacheable", "cache.(*httpCache).HitForPass", "cache.(*dispatcher).RemoveHTTPCache"},
 		Bounds:  map[string]string{"record": "all byte strings of length 0..60", "faults": "every combination of Get/Set/Delete outcomes on the explored call sequence"},
@@ -367,11 +371,12 @@ func propRegistry() map[string]PropSpec {
 			{Pkg: "cache", Fn: "Harness_C18_purge", Init: initCache, Reach: []string{"C18.named", "C18.unnamed", "C18.absent-cache", "C18.absent-key"}},
 			{Pkg: "cache", Fn: "Harness_C18_others_untouched", Init: initCache, Reach: []string{"C18.others.end"}, EngineOnly: true},
 			{Pkg: "cache", Fn: "Harness_C18_purge_during_fetch", Init: initCache, Reach: []string{"C18.racing.end"}},
+			{Pkg: "cache", Fn: "Harness_C18_purge_racing_request", Init: initCache, Reach: []string{"C18.race.end"}},
 			{Pkg: "cache", Fn: "Harness_C08_dispatcher_wiring", Init: initCache, Reach: []string{"C08.wiring.end"}},
 			{Pkg: "cache", Fn: "Harness_C06_lookup", Init: initCache, Reach: []string{"C06.lookup.end"}, EngineOnly: true},
 		},
-		Explanation: "Sequential purge semantics on the real dispatchers/dispatcher/lru code with symbolic keys and an uninterpreted hash: after a named purge the next lookup yields a fresh entry whose Get() is fetching and the persisted copy is gone (also when the key is not resident, e.g. after a restart); an unnamed purge does so in every cache; purging an absent cache or key changes nothing; other keys keep their entries. A purge completing while a fetch is in flight: it takes only the shard lock (a blocking purge would show as no-deadlock), leaves the detached entry and its waiter list untouched, and later requests get a fresh entry (known finding F11 with a store).",
-		Assumptions: []string{"faithful store (C08) or no store", "keys <= 2 bytes, two caches; hash uninterpreted", "sequential histories here; interleavings under BMC"},
+		Explanation: "Sequential purge semantics on the real dispatchers/dispatcher/lru code with symbolic keys and an uninterpreted hash: after a named purge the next lookup yields a fresh entry whose Get() is fetching and the persisted copy is gone (also when the key is not resident, e.g. after a restart); an unnamed purge does so in every cache; purging an absent cache or key changes nothing; other keys keep their entries. A purge completing while a fetch is in flight: it takes only the shard lock (a blocking purge would show as no-deadlock), leaves the detached entry and its waiter list untouched, and later requests get a fresh entry (known finding F11 with a store). A request racing the purge of a persisted entry, placed at the points where the purge leaves the shard unlocked around its store Delete (sequentialised interleaving; the request is skipped where the shard lock would block it): after the purge returned, the next request is not answered from the purged entry.",
+		Assumptions: []string{"faithful store (C08) or no store", "keys <= 2 bytes, two caches; hash uninterpreted", "sequential histories and one sequentialised racing request here (request atomic at the store call's boundaries); interleavings of one entry's operations under BMC"},
 		Encoded:     []string{"cache.(*dispatchers).RemoveHTTPCache", "cache.(*dispatcher).RemoveHTTPCache", "cache.(*httpLRUCache).removeCache", "cache.(*dispatchers).Get", "cache.NewDispatchers"},
 		Bounds:      map[string]string{"history": "populate, one purge of each kind, re-lookup", "keys": "<=2 bytes symbolic"},
 	})
